@@ -312,3 +312,52 @@ def _(self: SubObj(SDPBulkProtocol), data: Union[tuple(Bytes(n) for n in _SDP_LE
     pure()
     sample_with(lambda rnd: {"self": object.__new__(SDPBulkProtocol), "data": bytes(rnd.getrandbits(8) for _ in range(rnd.choice(_SDP_LENS))),
                              "report_id": rnd.choice([1, 2]), "report_size": rnd.choice([1020, 1024])})
+
+
+# ---- the remaining response classes: every field is the word the device sent, in the order it sent them ---------------------------------------------
+from spsdk.mboot.commands import (FlashReadOnceResponse, FlashReadResourceResponse, KeyProvisioningResponse, ReadMemoryResponse,  # noqa: E402
+                                  TrustProvisioningResponse)
+
+
+def _le(raw, i):
+    return int.from_bytes(raw[4 * i: 4 * i + 4], "little")
+
+
+def _HDRK(k):
+    return Obj(CmdHeader, tag=U8, flags=U8, reserved=Const(0), params_count=Const(k))
+
+
+@contract("spsdk.mboot.commands:ReadMemoryResponse.__init__")
+def _(self: Obj(ReadMemoryResponse), header: MB_HDR, raw_data: Bytes(lo=8, hi=64)):
+    ensures(self.status == _le(raw_data, 0) and self.length == _le(raw_data, 1), label="status-then-announced-length")
+    modifies(self.header, self.raw_data, self.status, self.length)
+
+
+@contract("spsdk.mboot.commands:FlashReadResourceResponse.__init__")
+def _(self: Obj(FlashReadResourceResponse), header: MB_HDR, raw_data: Bytes(lo=8, hi=64)):
+    ensures(self.status == _le(raw_data, 0) and self.length == _le(raw_data, 1), label="status-then-announced-length")
+    modifies(self.header, self.raw_data, self.status, self.length)
+
+
+@contract("spsdk.mboot.commands:KeyProvisioningResponse.__init__")
+def _(self: Obj(KeyProvisioningResponse), header: MB_HDR, raw_data: Bytes(lo=8, hi=64)):
+    ensures(self.status == _le(raw_data, 0) and self.length == _le(raw_data, 1), label="status-then-announced-length")
+    modifies(self.header, self.raw_data, self.status, self.length)
+
+
+@contract("spsdk.mboot.commands:FlashReadOnceResponse.__init__")
+def _(self: Obj(FlashReadOnceResponse), header: Union[_HDRK(2), _HDRK(3), _HDRK(4)], raw_data: Bytes(lo=16, hi=64)):
+    let(k=header.params_count)
+    ensures(self.status == _le(raw_data, 0) and self.length == _le(raw_data, 1), label="status-then-byte-count")
+    ensures(len(self.values) == k - 2 and all(self.values[i] == _le(raw_data, 2 + i) for i in range(k - 2)), label="value-words-as-sent-in-order")
+    ensures(self.data == (raw_data[8: 8 + _le(raw_data, 1)] if _le(raw_data, 1) > 0 else b""), label="data-are-the-announced-bytes-behind-the-two-words")
+    modifies(self.header, self.raw_data, self.status, self.length, self.values, self.data)
+
+
+@contract("spsdk.mboot.commands:TrustProvisioningResponse.__init__")
+def _(self: Obj(TrustProvisioningResponse), header: Union[_HDRK(1), _HDRK(2), _HDRK(4)], raw_data: Union[Bytes(4), Bytes(8), Bytes(16)]):
+    let(k=header.params_count)
+    requires(len(raw_data) == 4 * k)
+    ensures(self.status == _le(raw_data, 0), label="status-as-sent")
+    ensures(len(self.values) == k - 1 and all(self.values[i] == _le(raw_data, 1 + i) for i in range(k - 1)), label="value-words-as-sent-in-order")
+    modifies(self.header, self.raw_data, self.status, self.values)
